@@ -76,7 +76,14 @@ and item = function
 and block = function L (A "block" :: items) -> Block (List.map item items) | _ -> fail_sx "block"
 
 let () =
-  let cfg = { c_nl = ['\n']; c_indent = ['\t']; c_quote = AutoDouble } in
+  let base = { c_nl = ['\n']; c_indent = ['\t']; c_quote = AutoDouble; c_cp = CPAlways; c_sp_call = false; c_sp_def = false } in
+  let cfg = match Sys.argv.(1) with
+    | "1" -> { base with c_nl = ['\r'; '\n']; c_indent = [' '; ' '; ' ']; c_quote = AutoSingle }
+    | "2" -> { base with c_quote = ForceSingle; c_cp = CPNone; c_sp_call = true; c_sp_def = true }
+    | "3" -> { base with c_quote = ForceDouble; c_cp = CPNoString; c_sp_call = true }
+    | "4" -> { base with c_cp = CPNoTable; c_sp_def = true; c_indent = [' '] }
+    | "5" -> { base with c_cp = CPInput }
+    | _ -> base in
   let name = ref "" and ast = ref None in
   let ok = ref 0 and bad = ref 0 and unsup = ref 0 and skipped = ref 0 in
   (try while true do
